@@ -54,17 +54,33 @@ theorem frameOfBytes_frameBytes (h : Hdr) (data : Bytes) (hf : FrameWF h data) (
     rw [length_toBytes, hf.len]; rfl
   rw [this, List.take_left' rfl]
 
+/-- a header of the right length whose words fit 32 bits; preserved by every field assignment -/
+def HdrWF (h : Hdr) : Prop := h.length = Gen.hdrWords ∧ ∀ w ∈ h, w < 4294967296
+
+theorem hdrWF_zero : HdrWF Hdr.zero := by
+  refine ⟨by simp [Hdr.zero], ?_⟩
+  intro w hw
+  simp only [Hdr.zero, List.mem_replicate] at hw
+  omega
+
+theorem hdrWF_put {h : Hdr} (hw : HdrWF h) (i v : Nat) : HdrWF (h.put i v) := by
+  refine ⟨by simp [Hdr.put, hw.1], ?_⟩
+  intro w hm
+  rcases List.mem_or_eq_of_mem_set hm with h1 | h1
+  · exact hw.2 w h1
+  · subst h1; exact Nat.mod_lt _ (by unfold u32; omega)
+
+theorem hdrWF_put64 {h : Hdr} (hw : HdrWF h) (i v : Nat) : HdrWF (h.put64 i v) :=
+  hdrWF_put (hdrWF_put hw _ _) _ _
+
 theorem frameWF_reqStore (k v : Bytes) (trigs : List Key) (d : Time)
     (hsz : k.length + v.length + (trigBytes (sortSet trigs)).length < 4294967296) :
     FrameWF (reqStore k v trigs d).1 (reqStore k v trigs d).2 := by
-  have hm : (k ++ v ++ trigBytes (sortSet trigs)).length % u32 = (k ++ v ++ trigBytes (sortSet trigs)).length :=
-    Nat.mod_eq_of_lt (by simp only [List.length_append]; unfold u32; omega)
-  rw [reqStore_eq]
-  refine ⟨rfl, ?_, ?_⟩
-  · intro w hw
-    simp only [List.mem_cons, List.not_mem_nil, or_false] at hw
-    rcases hw with h | h | h | h | h | h | h | h | h | h <;> subst h <;> (try unfold u32) <;> omega
-  · simp only [Hdr.get, Gen.wSize, List.getD_cons_succ, List.getD_cons_zero, hm]
+  obtain ⟨f1, _, f3, _⟩ := reqStore_fields k v trigs d hsz
+  have hwf : HdrWF (reqStore k v trigs d).1 := by
+    simp only [reqStore]
+    exact hdrWF_put (hdrWF_put (hdrWF_put64 (hdrWF_put (hdrWF_put (hdrWF_put hdrWF_zero _ _) _ _) _ _) _ _) _ _) _ _
+  exact ⟨hwf.1, hwf.2, by rw [f3, f1]⟩
 
 /-! ### an operation on key `k` touches no server but `shard n k` (any client, any transport) -/
 
